@@ -106,8 +106,8 @@ def floatHashM (B : Nat) (s e : Int) : Option Int :=
   let signifResidue : Int := Int.tmod s (M127 : Int)
   let signifHash : Nat := reduceSingle signifResidue.natAbs            -- MInt::new
   let expHash : Option Nat :=
-    if B = 2 then some (reduceSingle (2 ^ (e % 127).toNat))            -- convert(1 << absm)
-    else if e < 0 then inv (pow (reduceSingle B) (-e).toNat)           -- convert(B).pow(-e).inv()
+    if B = 2 then some (reduceSingle (2 ^ (e % 127).toNat))            -- convert(1 << exponent.rem_euclid(127))
+    else if e < 0 then inv (pow (reduceSingle B) (-e).toNat)           -- convert(B).pow(exponent.unsigned_abs()).inv()
     else some (pow (reduceSingle B) e.toNat)
   expHash.map fun eh =>
     let hash : Int := (mul signifHash eh : Nat)
